@@ -53,7 +53,16 @@ func (c *Ctx) packetIDOf(s *reqSite) (ssa.Value, string) {
 }
 
 // ruleRegisterBeforeWrite: R-C07-1.
-func (c *Ctx) ruleRegisterBeforeWrite(rr *RuleRep, sites []*reqSite) {
+func (c *Ctx) ruleRegisterBeforeWrite(rr *RuleRep, sites []*reqSite, opts ...string) {
+	// opts: "no-sig-origin" skips the check that the signaller belongs to the client written to; "no-fresh-in-stage" skips the check that the channel is created in the registering stage
+	has := func(o string) bool {
+		for _, x := range opts {
+			if x == o {
+				return true
+			}
+		}
+		return false
+	}
 	sigM := c.Method("BaseClient", "signaller")
 	for _, s := range sites {
 		if s.AckT == "" {
@@ -84,7 +93,7 @@ func (c *Ctx) ruleRegisterBeforeWrite(rr *RuleRep, sites []*reqSite) {
 				}
 			}
 		}
-		if !okSig {
+		if !okSig && !has("no-sig-origin") {
 			rr.Bad(key, s.Reg.Pos(), "the waiter is registered in a signaller that is not obtained, in this function, from the client the request is written to (%s): on a retry with a new client the acknowledgement is routed to the old connection's waiter table", s.SigBase.String())
 			continue
 		}
@@ -94,7 +103,7 @@ func (c *Ctx) ruleRegisterBeforeWrite(rr *RuleRep, sites []*reqSite) {
 			rr.Bad(key, s.Reg.Pos(), "registered waiter is not a freshly made channel (%s)", s.RegChan.String())
 			continue
 		}
-		if mk.Parent() != s.F {
+		if mk.Parent() != s.F && !has("no-fresh-in-stage") {
 			rr.Bad(key, s.Reg.Pos(), "the waiter channel is created in %s, not in the stage that registers it: an acknowledgement delivered before this stage started would already sit in it and complete the request spuriously", FuncName(mk.Parent()))
 			continue
 		}
@@ -396,7 +405,8 @@ func describeVal(v ssa.Value) string {
 }
 
 // ruleHandleReissues: R-C01-6 / R-C19-4 / R-C12-3 — each handle re-issues the same request on the client it is given.
-func (c *Ctx) ruleHandleReissues(rr *RuleRep, uses []handleUse) {
+func (c *Ctx) ruleHandleReissues(rr *RuleRep, uses []handleUse, opts ...string) {
+	noCapture := len(opts) > 0 && opts[0] == "no-capture-checks"
 	seen := map[*ssa.Function]bool{}
 	for _, u := range uses {
 		h := u.Handle
@@ -419,7 +429,7 @@ func (c *Ctx) ruleHandleReissues(rr *RuleRep, uses []handleUse) {
 					t = p.Elem()
 				}
 			}
-			if n, ok := t.(*types.Named); ok && n.Obj().Name() == "BaseClient" {
+			if n, ok := t.(*types.Named); ok && n.Obj().Name() == "BaseClient" && !noCapture {
 				capturesCli = true
 				rr.Bad(key+"/captures-client", h.Pos(), "retry handle captures the original client (%s): part of the re-issued exchange would run against the old connection instead of the client given to Retry", fv.Name())
 			}
@@ -432,13 +442,9 @@ func (c *Ctx) ruleHandleReissues(rr *RuleRep, uses []handleUse) {
 					t = p.Elem()
 				}
 			}
-			if n, ok := t.(*types.Named); ok && n.Obj().Name() == "signaller" {
+			if n, ok := t.(*types.Named); ok && n.Obj().Name() == "signaller" && !noCapture {
 				capturesCli = true
 				rr.Bad(key+"/captures-signaller", h.Pos(), "retry handle captures the original connection's signaller (%s): the waiter for the re-issued request would be registered on the old connection", fv.Name())
-			}
-			if _, ok := t.Underlying().(*types.Chan); ok {
-				capturesCli = true
-				rr.Bad(key+"/captures-chan", h.Pos(), "retry handle captures a channel of the first attempt (%s)", fv.Name())
 			}
 		}
 		if capturesCli {
